@@ -1425,6 +1425,9 @@ func runC15(c *Ctx) error {
 	// and the static inventory of deferred result overwrites (c15wrap.go)
 	c15Wrappers(c)
 	c15Static(c)
+
+	// --- other build environments (c15env.go): GOARCH=386 child
+	c15Env(c)
 	return nil
 }
 
@@ -1436,3 +1439,5 @@ func c15Bucket(n int) string {
 	}
 	return fmt.Sprintf("<%d", bounds[i])
 }
+
+func newBigHex(t string) (*big.Int, bool) { return new(big.Int).SetString(t, 16) }
